@@ -283,8 +283,66 @@ def run(rep, tier, seed):
                 ok = check_bars(rep, [[b * c, d * c] for b, d in bars], "scale covariance c=2^%d" % round(__import__("math").log2(c)))
                 if ok:
                     rep.violation("landscape of %s scaled by %r is not the scaled landscape" % (bars, c), "landscape:scale", {"input": {"bars": bars, "scale": c}, "observed": scaled, "expected_base": base})
-    # hom_deg selection and removal of a trailing infinite bar
     from persim.landscapes import PersLandscapeExact
+    # every element type a diagram may be stored in (signed / unsigned integers of every width, single precision), integer-valued bars
+    # with disjoint, touching, nested and overlapping pairs
+    for _ in range(60 if tier == "quick" else 1200):
+        nb = rng.randint(2, 5)
+        bars = []
+        for _i in range(nb):
+            b = rng.randint(0, 9)
+            bars.append([float(b), float(b + rng.randint(1, 5))])
+        if len({tuple(b) for b in bars}) != len(bars):
+            continue
+        want_cp, _sc = run_traced(bars)
+        if numeric_mismatch(bars, want_cp):
+            continue          # the float run itself is wrong here (known repeated-bar mechanism): reported by the sweeps above
+        for dt in (np.uint8, np.uint16, np.uint64, np.int8, np.int64, np.float32):
+            evals += 1
+            distinct.add(("typed", np.dtype(dt).name))
+            try:
+                with warnings.catch_warnings():
+                    warnings.simplefilter("ignore")
+                    got = PersLandscapeExact(dgms=[np.array(bars, dtype=dt)], hom_deg=0).critical_pairs
+            except Exception as ex:
+                got = None
+                mm = {"problem": "raised %r" % (ex,)}
+            else:
+                mm = numeric_mismatch(bars, got)
+            if mm:
+                rep.violation("exact landscape of %s stored as %s differs from the k-th largest tent: %s" % (bars, np.dtype(dt).name, mm), "landscape:typed",
+                              {"input": {"bars": bars, "dtype": np.dtype(dt).name}, "mismatch": mm})
+                break
+    # two different diagrams whose arrays hold the same bytes (a float64 bar read as two float32 bars): processed one after the
+    # other in one process, each must get its own landscape
+    pool32 = [0.0, 1.0, 2.0, 2.25, 2.5, 2.75, 3.0, 4.0, 8.0, 16.0]
+    twins = []
+    for a in pool32:
+        for b in pool32:
+            for c in pool32:
+                for d_ in pool32:
+                    Y = np.array([[a, b], [c, d_]], dtype=np.float32)
+                    if not (a < b and c < d_) or (a, b) == (c, d_):
+                        continue
+                    X = Y.view(np.float64).reshape(-1, 2)
+                    if X.shape == (1, 2) and np.all(np.isfinite(X)) and 0 <= X[0, 0] < X[0, 1] < 1e6:
+                        twins.append((Y, X.copy()))
+    rng.shuffle(twins)
+    for Y, X in twins[: (6 if tier == "quick" else 60)]:
+        for first, second in ((Y, X), (X, Y)):
+            for Z in (first, second):
+                evals += 1
+                bars = [[float(p[0]), float(p[1])] for p in Z]
+                with warnings.catch_warnings():
+                    warnings.simplefilter("ignore")
+                    got = PersLandscapeExact(dgms=[Z.copy()], hom_deg=0).critical_pairs
+                mm = numeric_mismatch(bars, got)
+                if mm and not run_traced(bars)[1]:
+                    rep.violation("exact landscape of %s (%s) computed after a byte-identical array of another element type differs from the k-th largest tent: %s" % (bars, Z.dtype.name, mm),
+                                  "landscape:byte-twins", {"input": {"sequence": [first.tolist(), second.tolist()], "dtypes": [first.dtype.name, second.dtype.name]}, "mismatch": mm})
+                    break
+    distinct.add(("byte-twins", len(twins)))
+    # hom_deg selection and removal of a trailing infinite bar
     with warnings.catch_warnings():
         warnings.simplefilter("ignore")
         d0, d1 = np.array([[0.0, 3.0], [1.0, 4.0]]), np.array([[2.0, 5.0]])
